@@ -10,7 +10,7 @@
 (* shows predicted and observed values.  The state invariants of the       *)
 (* properties are evaluated on every real state of the trace.              *)
 (***************************************************************************)
-EXTENDS Naturals, Sequences, FiniteSets, TLC, Json, IOUtils
+EXTENDS Integers, Sequences, FiniteSets, TLC, Json, IOUtils
 
 TraceFile == IF "TRACE" \in DOMAIN IOEnv THEN IOEnv.TRACE ELSE "trace.ndjson"
 TraceLog == ndJsonDeserialize(TraceFile)
@@ -262,7 +262,13 @@ SyncKilledStep ==
            alts == Ev.state.alts
            loadable == {i \in 1..Len(alts) : "bad" \notin DOMAIN alts[i]}
            partial == {i \in 1..Len(alts) : "bad" \in DOMAIN alts[i] /\ alts[i].bad = "BAD"}
-           okC == \A i \in loadable : LoggedC(alts[i]) \in {C, presave, r.C}
+           M0 == WithIndex(Scan(L0, fs, SrcsOf(a), TRUE))
+           \* state written by an autosave after the stripe a.autosave_at (sync.c:1302-1340)
+           autosaved == IF "autosave_at" \in DOMAIN a
+                        THEN Normalize(SyncAll(M0, fs, Resize(par, AllocatedMax(M0)), a.autosave_at + 1, a.now, FALSE,
+                                               [lv \in Levels |-> Len(par[lv])]).M)
+                        ELSE C
+           okC == \A i \in loadable : LoggedC(alts[i]) \in {C, presave, r.C, autosaved}
            newpar == ParMerge(par, Ev.state)
            c06 == \A i \in loadable : ParityValid(LoggedC(alts[i]), newpar) /\ MapSane(LoggedC(alts[i]))
        IN /\ Follow(Ev.state, par)
@@ -275,7 +281,9 @@ SyncKilledStep ==
           /\ pviol' = (IF Ev.state.sha.f # sha.f THEN <<<<"C07", "killed-sync-changed-data", <<>>>>>> ELSE <<>>) \o
                       (IF partial # {} THEN <<<<"C09", "content-copy-partial-after-kill", partial>>>> ELSE <<>>) \o
                       (IF loadable = {} THEN <<<<"C07", "no-content-copy-loads-after-kill", <<>>>>>> ELSE <<>>) \o
-                      (IF ~dmg /\ ~c06 THEN <<<<"C07", "synced-stripes-without-valid-parity-after-kill", a.rules>>>> ELSE <<>>)
+                      (IF ~dmg /\ ~c06 THEN <<<<"C07", IF "autosave_at" \in DOMAIN a /\ newc = autosaved /\ newc # r.C
+                                                     THEN "F5-autosave-before-parity-writers-drained"
+                                                     ELSE "synced-stripes-without-valid-parity-after-kill", a.rules>>>> ELSE <<>>)
           /\ afterfix' = FALSE
           /\ UNCHANGED <<snap, dmg>>
 
@@ -318,6 +326,45 @@ FixStep ==
           /\ afterfix' = c01
           /\ UNCHANGED <<clean, snap, dmg, ghost>>
 
+(* a sync or scrub during which the operating system reported an error (EIO / ENOSPC injected by the shim) on the
+   data read or the parity read/write of stripe a.fpos.  C08 is evaluated on the real post-state. *)
+FaultStep ==
+    /\ IsEvent("SyncFault") \/ IsEvent("ScrubFault")
+    /\ LET a == Ev.args
+           newc == LoggedC(Ev.state)
+           L0 == ClearPast(C)
+           p == a.fpos
+           healthy == AllSynced(newc, p) /\ ~InfoAt(newc, p).bad
+           pw == a.fkind = "parity-write"
+           sig == IF pw /\ Ev.out.rc = 0 THEN "F4-parity-write-error-not-reported"
+                  ELSE IF pw /\ healthy THEN "F3-parity-write-error-stripe-stays-synced"
+                  ELSE IF Ev.out.rc = 0 THEN "io-error-exit-ok"
+                  ELSE IF healthy THEN "io-error-stripe-recorded-synced-and-healthy"
+                  ELSE "none"
+       IN /\ Follow(Ev.state, par)
+          /\ diag' = <<>>
+          /\ clean' = FALSE
+          /\ ghost' = IF newc = C \/ Ev.e = "ScrubFault" THEN ghost
+                      ELSE [d \in D |-> [n \in DOMAIN newc.cf[d] |->
+                              IF n \in Fresh(L0, fs, d) /\ n \in DOMAIN fs[d] THEN fs[d][n].b
+                              ELSE IF n \in DOMAIN ghost[d] THEN ghost[d][n] ELSE <<>>]]
+          /\ pviol' = (IF p >= 0 /\ sig # "none" THEN <<<<"C08", sig, [kind |-> a.fkind, pos |-> p, rc |-> Ev.out.rc, rules |-> a.rules]>>>> ELSE <<>>) \o
+                      (IF Ev.state.sha.f # sha.f THEN <<<<"C12", Ev.e \o "-changed-data", <<>>>>>> ELSE <<>>) \o
+                      (IF Ev.e = "ScrubFault" /\ Ev.state.sha.p # sha.p THEN <<<<"C12", "ScrubFault-changed-parity", <<>>>>>> ELSE <<>>)
+          /\ dmg' = (dmg \/ pw)
+          /\ afterfix' = FALSE
+          /\ UNCHANGED snap
+
+(* a fix that was killed: content files untouched; data and parity are in some intermediate state from which
+   the next fix is validated as usual *)
+FixKilledStep ==
+    /\ IsEvent("FixKilled")
+    /\ Follow(Ev.state, par)
+    /\ diag' = <<>>
+    /\ pviol' = IF Ev.state.sha.c # sha.c THEN <<<<"C07", "killed-fix-changed-content", <<>>>>>> ELSE <<>>
+    /\ afterfix' = FALSE
+    /\ UNCHANGED <<clean, snap, dmg, ghost>>
+
 ScrubStep ==
     /\ IsEvent("Scrub")
     /\ LET a == Ev.args
@@ -358,7 +405,7 @@ ResetStep ==
     /\ pviol' = <<>>
     /\ afterfix' = FALSE
 
-Next == EnvStep \/ SyncStep \/ SyncKilledStep \/ CheckStep \/ FixStep \/ ScrubStep \/ DiffStep \/ ResetStep
+Next == EnvStep \/ SyncStep \/ SyncKilledStep \/ FixKilledStep \/ FaultStep \/ CheckStep \/ FixStep \/ ScrubStep \/ DiffStep \/ ResetStep
 Spec == Init /\ [][Next]_vars
 
 (* ---- what TLC checks ---- *)
